@@ -408,14 +408,15 @@ Definition parse_chunk_line (line : bytes) : option N :=
   then Some (hex_value size) else None.
 
 (* position just after the first CRLF CRLF *)
+Definition lf_cr_lf (r : bytes) : bool :=
+  match r with
+  | a :: b :: c :: _ => (a =? 10) && (b =? 13) && (c =? 10)
+  | _ => false
+  end.
 Fixpoint after_double_crlf (s : bytes) (n : N) : option N :=
   match s with
-  | 13 :: r => match r with
-               | 10 :: 13 :: 10 :: _ => Some (n + 4)
-               | _ => after_double_crlf r (n + 1)
-               end
-  | _ :: r => after_double_crlf r (n + 1)
   | [] => None
+  | x :: r => if (x =? 13) && lf_cr_lf r then Some (n + 4) else after_double_crlf r (n + 1)
   end.
 
 (* trailer-section = *( field-line CRLF ), then the empty line *)
@@ -464,13 +465,14 @@ Fixpoint read_chunks (fuel : nat) (d : devs) (s : bytes) (total : N) (acc : byte
           if Nat.ltb (length data) k then ChIncomplete
           else
             match after with
-            | 13 :: 10 :: rest' => read_chunks f d rest' total (acc ++ data)
-            | _ :: _ :: _ =>
-              (* chunk data not followed by CRLF *)
-              ChBad (match after_double_crlf after 0 with
-                     | Some p => total - lenN after + p
-                     | None => total
-                     end)
+            | a :: b :: rest' =>
+              if (a =? 13) && (b =? 10) then read_chunks f d rest' total (acc ++ data)
+              else
+                (* chunk data not followed by CRLF *)
+                ChBad (match after_double_crlf after 0 with
+                       | Some p => total - lenN after + p
+                       | None => total
+                       end)
             | _ => ChIncomplete
             end
         end
